@@ -108,14 +108,15 @@ impl FileBlocks {
                 serde_json::payload(#[trigger] r@[i]).line <= serde_json::payload(#[trigger] r@[j]).line,
             r@ == stable_sort_by_key_spec(listings_of(self.blocks_with_context@), |v: serde_json::Value| line_key(v)), // [L1.post.is_function_of_blocks]
             l1_post(*self, r@), // [L1.post.is_spec]
-//@edit rule=E15 find=<<for $a in &self.blocks_with_context>>
-        for $a in it: &self.blocks_with_context
+//@foridx rule=E18 find=<<for $a in &self.blocks_with_context>> idx=verif_j
             invariant
                 lines_fit_u64(*self),
-                listings@.len() == it.index@, // [L1.inv.one_listing_per_visited_block]
-                forall|k: int| 0 <= k < it.index@ ==> #[trigger] listings@[k] == listing_of(self.blocks_with_context@[k]) // [L1.inv.listing_of_block_k]
+                verif_j <= self.blocks_with_context@.len(),
+                listings@.len() == verif_j, // [L1.inv.one_listing_per_visited_block]
+                forall|k: int| 0 <= k < verif_j ==> #[trigger] listings@[k] == listing_of(self.blocks_with_context@[k]) // [L1.inv.listing_of_block_k]
                     && serde_json::payload(listings@[k]) == listing_fields(self.blocks_with_context@[k])
                     && line_key(listings@[k]) == self.blocks_with_context@[k].block.start_tag_position_range@.start.line,
+            decreases self.blocks_with_context@.len() - verif_j
 //@edit rule=E2 find=<<serde_json::json!({ "name":>>
 serde_json::verif_json_listing(
 //@edit rule=E2 find=<<, "line":>>
@@ -143,10 +144,10 @@ serde_json::verif_index_as_u64($a, $$s)
             let bs = self.blocks_with_context@;
             let keyf = |v: serde_json::Value| line_key(v);
             let p = choose|p: Seq<int>| #[trigger] stable_sort_witness(p, pre, listings@, keyf);
-            assert forall|i: int| 0 <= i < p.len() implies serde_json::payload(#[trigger] listings@[i]).line == line_key(listings@[i]) by {
+            assert forall|i: int| 0 <= i < p.len() implies serde_json::payload(#[trigger] listings@[i]).line == line_key(listings@[i]) by { // [L1.proof.sort_key_is_the_listed_line]
                 assert(listings@[i] == pre[p[i]]);
             }
-            assert(report_witness(p, bs, listings@));
+            assert(report_witness(p, bs, listings@)); // [L1.proof.sorted_listings_show_each_block_once]
         }
 //@end
 }
